@@ -40,13 +40,13 @@ func getStoreRoles(p *ir.Prog) *storeRoles {
 	s.apply = p.Fn("chain", "DBStore", "ApplyBlock")
 	s.revert = p.Fn("chain", "DBStore", "RevertBlock")
 	s.methods = p.MethodsOf("chain", "DBStore")
-	bt := dbBucketType(p)
+	wrapperFns := bucketWrapperFns(p)
 	rawPut0 := p.Method("chain", "DBBucket", "Put")
 	rawDel0 := p.Method("chain", "DBBucket", "Delete")
 	// the wrapper's write methods: those that (transitively) reach DBBucket.Put / Delete
 	wr := map[*types.Func]bool{}
 	for round := 0; round < 3; round++ {
-		for _, f := range p.MethodsOf("chain", bt) {
+		for _, f := range wrapperFns {
 			if len(f.CallsTo(false, rawPut0, rawDel0)) > 0 {
 				wr[f.Obj] = true
 			}
@@ -57,24 +57,24 @@ func getStoreRoles(p *ir.Prog) *storeRoles {
 			}
 		}
 	}
-	for _, f := range p.MethodsOf("chain", bt) {
+	for _, f := range wrapperFns {
 		if wr[f.Obj] {
 			s.bucketWrites = append(s.bucketWrites, f.Obj)
 		}
 	}
 	if len(s.bucketWrites) == 0 {
-		ir.Fail("no write method on the bucket wrapper %s", bt)
+		ir.Fail("no write method on the bucket wrapper")
 	}
 	// direct raw writes through DBBucket as well
 	rawPut := p.Method("chain", "DBBucket", "Put")
 	rawDel := p.Method("chain", "DBBucket", "Delete")
-	for _, f := range p.MethodsOf("chain", bt) {
+	for _, f := range wrapperFns {
 		if len(f.CallsTo(false, rawPut, rawDel)) > 0 {
 			s.writers[f.Obj] = true
 		}
 	}
 	for round := 0; round < 5; round++ {
-		for _, f := range append(append([]*ir.Func{}, s.methods...), p.MethodsOf("chain", bt)...) {
+		for _, f := range append(append([]*ir.Func{}, s.methods...), wrapperFns...) {
 			for _, call := range f.Calls(true) {
 				if s.writers[call.Fn] {
 					s.writers[f.Obj] = true
